@@ -185,6 +185,18 @@ def run(ctx):
             ctx.violation("latter-map-twin-differs", small, "accessor", c["twin_note"])
     ctx.sample({"flow": "B", "case": {"k": cases[0]["k"], "t": cases[0]["t"], "mask_size": len(cases[0]["mask"]),
                                       "retained": len(cases[0]["verts"]), "out": cases[0]["out"]}, "verdict": got[1]})
+    # growth of the specification (conformance tier, never a verdict): remove_useless as a public function on arbitrary latter maps
+    rr = ctx.tlc("MC_RemoveUseless", "MC_RemoveUseless.cfg", workers=8, timeout=600)
+    ndiv = 0
+    for rec in rr.records:
+        lm = {v: list(x[1]) for v, x in enumerate(rec["lm"]) if x[0]}
+        want = {v: sorted(x[1]) for v, x in enumerate(rec["res"]) if x[0]}
+        o = impl.call(dsw.remove_useless, {k: list(v) for k, v in lm.items()}, rec["t"], _budget=16)
+        got = {int(k): sorted(int(y) for y in v) for k, v in o["value"].items()} if o["out"] == "ok" else outcome(o)
+        if got != want:
+            ndiv += 1
+            ctx.divergence("conformance:remove_useless", {"lm": lm, "t": rec["t"], "want": want, "got": got})
+    ctx.notes["remove_useless_public"] = {"cases": len(rr.records), "divergences": ndiv}
     ctx.assumptions += ["masks are boolean or 0/1 integer numpy arrays"]
     return {"scope": {"order2_pairs": len(recs), "flowB_cases": len(cases)}}
 
